@@ -17,12 +17,8 @@ use std::time::{Duration, Instant};
 // child: `rsv solve-one`
 // ---------------------------------------------------------------------------------------------
 
-pub fn solve_one_main() -> i32 {
-    sut::silence_stdout();
-    let mut input = String::new();
-    std::io::stdin().read_to_string(&mut input).expect("stdin");
-    let input: Value = serde_json::from_str(&input).expect("instance json");
-    let want_snapshots = std::env::var("RSV_SNAPSHOTS").map(|x| x == "1").unwrap_or(true);
+/// Run the real pipeline in this process and build the same result the child would send.
+pub fn solve_inline(input: &Value, want_snapshots: bool) -> ChildResult {
     let res = sut::catch(|| {
         solution::verif::enable();
         let out = server::solve_instance(input.clone());
@@ -31,49 +27,56 @@ pub fn solve_one_main() -> i32 {
         (out, snaps, trans)
     });
     match res {
-        Err(p) => {
-            sut::outln(&json!({"status": "panic", "msg": p.msg, "loc": p.loc, "file": p.file()}).to_string());
-        }
+        Err(p) => ChildResult::Panic { file: p.file(), msg: p.msg, loc: p.loc },
         Ok((out, snaps, trans)) => {
             let mut snapshots = Vec::new();
             let mut optimiser_output: Vec<Value> = Vec::new();
             if want_snapshots {
-                // id maps are built in the child, digests are what travels
                 // the id maps must be built over the very network the snapshots refer to: default
                 // depots get their indices from a HashMap iteration, so a second load may differ
                 let net = snaps.first().map(|(_, s)| s.get_network());
                 let build = || -> Result<Ctx, String> {
-                    let inst = Inst::from_json(&input)?;
+                    let inst = Inst::from_json(input)?;
                     let flat = Flat::new(&inst)?;
                     Ctx::from_parts(flat, net.clone().ok_or("no snapshot")?)
                 };
-                match sut::catch(build) {
-                    Ok(Ok(cx)) => {
-                        for (label, vt, t) in &trans {
-                            if label == "optimiser_output" {
-                                optimiser_output.push(json!({
-                                    "type": cx.type_of.get(vt),
-                                    "cycles": t.cycles_iter().filter(|c| !c.is_empty()).map(|c| c.iter().map(|v| v.to_string()).collect::<Vec<_>>()).collect::<Vec<_>>(),
-                                    "totals": [t.maintenance_violation(), t.maintenance_counter()],
-                                }));
-                            }
-                        }
-                        for (label, s) in &snaps {
-                            let fs = sut::catch(|| osched::validate(&cx, s, &osched::Opts { c09: true, c10: true }));
-                            let osched: Vec<Value> = match fs {
-                                Ok(fs) => fs.iter().map(|f| json!({"prop": f.prop, "msg": f.msg})).collect(),
-                                Err(p) => vec![json!({"prop": "C09", "msg": format!("PANIC while validating snapshot at {}: {}", p.file(), p.msg)})],
-                            };
-                            let rejson = sut::catch(|| solution::json_serialisation::schedule_to_json(s)).ok();
-                            snapshots.push(json!({"label": label, "digest": cx.digest(s), "osched": osched, "json": if label == "final" { rejson } else { None }}));
+                if let Ok(Ok(cx)) = sut::catch(build) {
+                    for (label, vt, t) in &trans {
+                        if label == "optimiser_output" {
+                            optimiser_output.push(json!({
+                                "type": cx.type_of.get(vt),
+                                "cycles": t.cycles_iter().filter(|c| !c.is_empty()).map(|c| c.iter().map(|v| v.to_string()).collect::<Vec<_>>()).collect::<Vec<_>>(),
+                                "totals": [t.maintenance_violation(), t.maintenance_counter()],
+                            }));
                         }
                     }
-                    _ => {}
+                    for (label, s) in &snaps {
+                        let fs = sut::catch(|| osched::validate(&cx, s, &osched::Opts { c09: true, c10: true }));
+                        let osched: Vec<Value> = match fs {
+                            Ok(fs) => fs.iter().map(|f| json!({"prop": f.prop, "msg": f.msg})).collect(),
+                            Err(p) => vec![json!({"prop": "C09", "msg": format!("PANIC while validating snapshot at {}: {}", p.file(), p.msg)})],
+                        };
+                        let rejson = sut::catch(|| solution::json_serialisation::schedule_to_json(s)).ok();
+                        snapshots.push(json!({"label": label, "digest": cx.digest(s), "osched": osched, "json": if label == "final" { rejson } else { None }}));
+                    }
                 }
             }
             snapshots.push(json!({"label": "optimiser_output", "per_type": optimiser_output}));
-            sut::outln(&json!({"status": "answer", "output": out, "snapshots": snapshots}).to_string());
+            ChildResult::Answer { output: out, snapshots }
         }
+    }
+}
+
+pub fn solve_one_main() -> i32 {
+    sut::silence_stdout();
+    let mut input = String::new();
+    std::io::stdin().read_to_string(&mut input).expect("stdin");
+    let input: Value = serde_json::from_str(&input).expect("instance json");
+    let want_snapshots = std::env::var("RSV_SNAPSHOTS").map(|x| x == "1").unwrap_or(true);
+    match solve_inline(&input, want_snapshots) {
+        ChildResult::Panic { msg, file, loc } => sut::outln(&json!({"status": "panic", "msg": msg, "loc": loc, "file": file}).to_string()),
+        ChildResult::Answer { output, snapshots } => sut::outln(&json!({"status": "answer", "output": output, "snapshots": snapshots}).to_string()),
+        _ => {}
     }
     0
 }
@@ -165,6 +168,8 @@ pub struct PipelineEngine {
     pub cfg: GenCfg,
     pub watchdog: Duration,
     pub profiles: Vec<&'static str>,
+    /// libFuzzer targets: run the pipeline in this (instrumented) process instead of in children
+    pub in_process: bool,
 }
 
 impl PipelineEngine {
@@ -181,7 +186,7 @@ impl PipelineEngine {
             "C06" => cfg.heavy_demand = true,
             _ => {}
         }
-        PipelineEngine { prop: prop.to_string(), cfg, watchdog: Duration::from_secs(if tier == "thorough" { 60 } else { 20 }), profiles: vec!["checked", "release"] }
+        PipelineEngine { prop: prop.to_string(), cfg, watchdog: Duration::from_secs(if tier == "thorough" { 60 } else { 20 }), profiles: vec!["checked", "release"], in_process: false }
     }
 
     pub fn instance(&self, tape: &Tape) -> Inst {
@@ -431,7 +436,7 @@ impl Engine for PipelineEngine {
         }
         let mut nontrivial_any = false;
         for profile in &self.profiles {
-            let mut r = run_child(profile, &["solve-one"], &input_s, self.watchdog, &[]);
+            let mut r = if self.in_process { solve_inline(&input, true) } else { run_child(profile, &["solve-one"], &input_s, self.watchdog, &[]) };
             if matches!(r, ChildResult::Timeout) && self.prop == "C06" {
                 // slow or hanging? one retry with a five times longer watchdog (at most one
                 // such retry per worker process, so a systematic hang cannot stall the run)
